@@ -10,7 +10,7 @@ R12.3 the LALR pipeline hands exactly augment_grammar's result on (check_and_tra
 """
 from .. import cfg
 from ..callgraph import CallGraph
-from ..dataflow import operand_term, raw_operand_place, raw_place, single_def
+from ..dataflow import operand_term, raw_operand_place, raw_place, single_def, forward_derived
 from ..facts import AnchorMissing
 from .common import (PA, where, short, transitive_control_deps, control_dependence_no_errors, only_via_edge,
                      all_places, ok_blocks)
@@ -34,6 +34,8 @@ GEN = "parol::utils::generate_name"
 INSERT = "std::vec::Vec::insert"
 PUSH = "std::vec::Vec::push"
 SYMBOL = "parol::grammar::symbol::Symbol"
+PARTIAL = {"last", "first", "get", "split_last", "split_first", "first_chunk", "last_chunk", "get_unchecked", "index",
+           "nth", "take", "skip", "starts_with", "ends_with"}
 STRUCTURAL_TRAITS = {"std::cmp::PartialEq", "std::cmp::Eq", "std::cmp::PartialOrd", "std::cmp::Ord", "std::hash::Hash",
                      "std::clone::Clone", "std::fmt::Debug"}
 
@@ -67,13 +69,22 @@ def reads_rhs_and_start(facts, cg, roots, depth=3):
             if b.impl_trait in STRUCTURAL_TRAITS:
                 # whole-value comparisons (derived PartialEq/Ord/Hash ..) are not a comparison of the *name*
                 continue
-            if b.calls_to(GET_R):
-                rhs = True
+            for gc in b.calls_to(GET_R):
+                # the right-hand side must be scanned completely: its consumers iterate it
+                der = forward_derived(b, [gc.dest[0]], through_calls=lambda c: bool(
+                    c.names() & {"std::ops::Deref::deref", "std::vec::Vec::as_slice", "std::convert::AsRef::as_ref"}))
+                cons = [(c.path or "").split("::")[-1] for c in b.calls()
+                        if c.bb != gc.bb and any(a[0] in ("c", "m") and a[1][0] in der for a in c.args)
+                        and not (c.names() & {"std::ops::Deref::deref"})]
+                if any(n in ("iter", "into_iter") for n in cons) and not any(n in PARTIAL for n in cons):
+                    rhs = True
             for bi, kind, p, line in all_places(b):
                 for e in p[1:]:
                     if isinstance(e, list) and e[0] == "f":
-                        if e[3] == PR and e[1] == 1 and kind == "r":
-                            rhs = True
+                        if e[3] == PR and e[1] == 1 and kind == "r" and b.path != GET_R:
+                            names_ = [(c.path or "").split("::")[-1] for c in b.calls()]
+                            if any(n in ("iter", "into_iter") for n in names_) and not any(n in PARTIAL for n in names_):
+                                rhs = True
                         if e[3] == CFG and e[2] == "st" and kind == "r":
                             st = True
                 for i, e in enumerate(p[1:]):
@@ -133,7 +144,7 @@ def check(ctx):
         ctx.check(found is not None, "R12.1", "augment_grammar|unchanged-return-reads-rhs",
                   "the unchanged return (bb%d) is taken only on the false edge of a test (%s) whose closure reads "
                   "right-hand sides (Pr::get_r) and compares the name component of Symbol::N" % (b, short(found.path) if found else ""),
-                  "augment_grammar returns the grammar unchanged without a test that scans the right-hand sides for the "
+                  "augment_grammar returns the grammar unchanged without a test that scans the *complete* right-hand sides for the "
                   "*name* of the start symbol (Symbol::N field 0; a whole-Symbol comparison misses clipped / typed / "
                   "member-named occurrences): the start symbol of the LR grammar may then occur on a right-hand side",
                   where(body, line))
